@@ -1,10 +1,3 @@
-// Package c16: failed EVM call frames leave no trace; a static call changes nothing; value is
-// conserved (minus what self-destructed accounts burn); gas returned never exceeds gas supplied.
-//
-// Programs come from a frame-tree DSL (verif/model/c16_*.go), are compiled to bytecode by the
-// harness and executed by the REAL core/vm interpreter on a REAL core/state.StateDB. The oracle is
-// the DSL's reference semantics (deep-copy snapshots, no journal, no gas) plus model-free
-// invariants observed through the vm.Tracer hook.
 package c16
 
 import (
@@ -65,13 +58,21 @@ func run(c *kit.Ctx) {
 		return
 	}
 	c.End("")
-	n := c.N(10000, 1500000)
+	n := c.N(8000, 1000000)
 	for i := 0; i < n; i++ {
 		id := fmt.Sprintf("p%d", i)
 		if !c.Mine(i, id) {
 			continue
 		}
 		runProgram(c, id)
+	}
+	nd := c.N(160, 16000)
+	for i := 0; i < nd; i++ {
+		id := fmt.Sprintf("d%d", i)
+		if !c.Mine(n+i, id) {
+			continue
+		}
+		runDeep(c, id)
 	}
 }
 
@@ -100,6 +101,9 @@ func selfCheck() string {
 type prepared struct {
 	p     *model.C16Program
 	pre   []preAcct
+	modes []int                      // how each transaction is finalised (0 Finalise, 1 IntermediateRoot, 2 Commit, 3 Commit + reopen)
+	resD  []*model.C16TxResult       // the reference with the known defect "removed account's balance resurrected" emulated
+	ghost []map[model.C16Addr]uint64 // before each transaction: value that removed accounts held at their removal
 	res   []*model.C16TxResult
 	sim   *model.C16Sim
 	init  *model.C16State
@@ -141,7 +145,30 @@ func prepare(c *kit.Ctx, id string) *prepared {
 			c.Count("gen_rejected_gas_not_provably_ample", 1)
 			continue
 		}
-		return &prepared{p: p, pre: pre, res: res, sim: sim, init: init, tries: try + 1}
+		pp := &prepared{p: p, pre: pre, res: res, sim: sim, init: init, tries: try + 1}
+		for i := range p.Txs {
+			mode := r.Intn(4)
+			if i == len(p.Txs)-1 && r.Intn(2) == 0 {
+				mode = 3
+			}
+			pp.modes = append(pp.modes, mode)
+		}
+		// second run of the reference with the known defect emulated; used only to put the right name on a
+		// deviation from the first one
+		simD := model.NewC16Sim(p, init)
+		simD.Emulate()
+		for i := range p.Txs {
+			pp.ghost = append(pp.ghost, simD.Ghost())
+			rs := simD.Tx(i)
+			if rs.Uncertain {
+				rs = nil
+			}
+			pp.resD = append(pp.resD, rs)
+			if pp.modes[i] == 3 {
+				simD.Reopened()
+			}
+		}
+		return pp
 	}
 	return nil
 }
@@ -200,6 +227,13 @@ func runProgram(c *kit.Ctx, id string) {
 	p := pp.p
 	r := c.Rand(id + "/drive")
 	observe := r.Intn(2) == 0 // intrusive observation (state reads from inside the tracer) on half of the programs
+	// a quarter of the programs run "hands off": between the transactions the live object is not read at
+	// all (reads populate its caches and could mask a fault); only a Copy of it is flushed and enumerated
+	handsOff := r.Intn(4) == 0
+	if handsOff {
+		observe = false
+		c.Count("programs_run_hands_off", 1)
+	}
 
 	db := state.NewDatabase(youdb.NewMemDatabase())
 	st, err := state.New(common.Hash{}, common.Hash{}, common.Hash{}, db)
@@ -248,7 +282,6 @@ func runProgram(c *kit.Ctx, id string) {
 	yp := params.Versions[params.YouCurrentVersion]
 	feats := map[string]bool{}
 	prevPost := pp.init
-	burntAt := map[model.C16Addr]uint64{} // value that died with a self-destructed account in an earlier transaction
 	bhash := common.BytesToHash([]byte("c16-block"))
 	bad := false
 	for ti, tx := range p.Txs {
@@ -262,12 +295,22 @@ func runProgram(c *kit.Ctx, id string) {
 		}
 		// observation before
 		var before, beforeFlushed mon.Digest
+		quiet := handsOff && ti < len(p.Txs)-1 // no reads of the live object around this transaction
+		if quiet {
+			c.Count("transactions_run_hands_off", 1)
+		}
 		needFull := !res.OK || ti%3 == 0
+		before = mon.Digest{}
 		if needFull {
-			before = mon.Live(st, mu, mon.Opts{})
+			if !quiet {
+				before = mon.Live(st, mu, mon.Opts{})
+			}
 			beforeFlushed = mon.Flushed(st)
 		}
-		sumBefore := sumBalances(st, univ)
+		sumBefore := new(big.Int)
+		if !quiet {
+			sumBefore = sumBalances(st, univ)
+		}
 		trieBefore, terr := trieDump(st)
 		if terr != nil {
 			c.Violation("state-unreadable", "trie dump before tx: "+terr.Error(), pp.witness(ti, "before", nil, between))
@@ -326,6 +369,24 @@ func runProgram(c *kit.Ctx, id string) {
 			c.Count("transactions_rerunning_an_earlier_tree", 1)
 		}
 
+		// attrib puts the name of the known defect on a deviation iff the emulating reference predicts
+		// something else than the specified one for this transaction AND the real state equals that
+		// prediction field by field (so nothing else can hide behind the known defect)
+		attrib := func(class string, final bool, flushed map[string]*trieAcct) (string, string) {
+			rd := pp.resD[ti]
+			if rd == nil || (rd.OK == res.OK && statesEqual(rd.Pre, res.Pre)) || (cerr == nil) != rd.OK {
+				return class, ""
+			}
+			if !final {
+				if len(compareLive(st, rd.Pre, univ, true)) > 0 || len(compareLogs(st.GetLogs(thash), rd.Pre.Logs, thash, pp)) > 0 {
+					return class, ""
+				}
+			} else if len(compareLive(st, rd.Post, univ, false)) > 0 || len(compareTrie(flushed, rd.Post)) > 0 {
+				return class, ""
+			}
+			return "burnt-balance-resurrected", " [ATTRIBUTION: the real state equals, field by field, the reference run in which StateDB.CreateAccount hands the value that a REMOVED (self-destructed, finalised) account held at its removal to the account re-created at the same address later in the block; class without this attribution: " + class + "]"
+		}
+
 		// (1) gas: never more back than supplied, at any depth
 		if left > tx.Gas {
 			c.Violation("leftover-gas-exceeds-supplied", fmt.Sprintf("tx%d: supplied %d, left over %d", ti, tx.Gas, left), pp.witness(ti, "execution", nil, between))
@@ -333,7 +394,13 @@ func runProgram(c *kit.Ctx, id string) {
 		}
 		if len(tr.viol) > 0 {
 			v := tr.viol[0]
-			c.Violation(v.class, fmt.Sprintf("tx%d: %s", ti, v.msg), pp.witness(ti, "execution", v.diffs, between))
+			cl, note := v.class, ""
+			if v.class == "static-call-changed-state" {
+				if cl, note = attrib(v.class, false, nil); cl == v.class && staticDiffIsResurrection(v.diffs, pp.ghost[ti]) {
+					cl, note = "burnt-balance-resurrected", " [ATTRIBUTION: the only change below the STATICCALL is that an address removed (self-destructed, finalised) earlier in the block exists again and holds exactly the value it held at its removal: a zero-value CALL re-created it through StateDB.CreateAccount; class without this attribution: "+v.class+"]"
+				}
+			}
+			c.Violation(cl, fmt.Sprintf("tx%d: %s%s", ti, v.msg, note), pp.witness(ti, "execution", v.diffs, between))
 			bad = true
 		}
 		if bad {
@@ -343,7 +410,8 @@ func runProgram(c *kit.Ctx, id string) {
 
 		// (2) outcome of the top-level frame as the reference predicts
 		if (cerr == nil) != res.OK {
-			c.Violation("frame-outcome-mismatch", fmt.Sprintf("tx%d: top-level frame: real err=%v, reference predicts success=%v", ti, cerr, res.OK), pp.witness(ti, "execution", nil, between))
+			cl, note := attrib("frame-outcome-mismatch", false, nil)
+			c.Violation(cl, fmt.Sprintf("tx%d: top-level frame: real err=%v, reference predicts success=%v%s", ti, cerr, res.OK, note), pp.witness(ti, "execution", nil, between))
 			bad = true
 			break
 		}
@@ -357,7 +425,10 @@ func runProgram(c *kit.Ctx, id string) {
 		if cerr != nil {
 			c.Count("toplevel_failed", 1)
 			feats["top-failed"] = true
-			after := mon.Live(st, mu, mon.Opts{})
+			after := mon.Digest{}
+			if !quiet {
+				after = mon.Live(st, mu, mon.Opts{})
+			}
 			afterFlushed := mon.Flushed(st)
 			if tx.Create {
 				// the creator's nonce bump is the creator's own effect (it precedes the frame)
@@ -382,22 +453,21 @@ func runProgram(c *kit.Ctx, id string) {
 		}
 
 		// (4) model-free value conservation, live view before finalisation
-		sumAfter := sumBalances(st, univ)
+		sumAfter := new(big.Int)
+		if !quiet {
+			sumAfter = sumBalances(st, univ)
+		}
 		want := new(big.Int).Sub(sumBefore, tr.selfBurn)
 		c.Evals(1)
-		if sumAfter.Cmp(want) != 0 {
-			cl, extra := "total-balance-changed", ""
-			surplus := new(big.Int).Sub(sumAfter, want)
-			if a, amt := resurrected(st, res.Pre, burntAt, surplus); amt > 0 {
-				cl, extra = "burnt-balance-resurrected", fmt.Sprintf("; the surplus of %d is exactly the value that was destroyed together with account %x when it was removed at the end of an earlier transaction; the address came into being again in this transaction", amt, a[:])
-			}
-			c.Violation(cl, fmt.Sprintf("tx%d: sum of balances before %v, after execution %v, burnt by SELFDESTRUCT-to-self in surviving frames %v%s", ti, sumBefore, sumAfter, tr.selfBurn, extra), pp.witness(ti, "after execution", nil, between))
+		if !quiet && sumAfter.Cmp(want) != 0 {
+			cl, note := attrib("total-balance-changed", false, nil)
+			c.Violation(cl, fmt.Sprintf("tx%d: sum of balances before %v, after execution %v, burnt by SELFDESTRUCT-to-self in surviving frames %v%s", ti, sumBefore, sumAfter, tr.selfBurn, note), pp.witness(ti, "after execution", nil, between))
 			bad = true
 			break
 		}
 		dying := new(big.Int)
 		for _, a := range univ {
-			if st.HasSuicided(a) {
+			if !quiet && st.HasSuicided(a) {
 				dying.Add(dying, st.GetBalance(a))
 				c.Count("accounts_selfdestructed_at_finalisation", 1)
 				if st.GetBalance(a).Sign() > 0 {
@@ -408,9 +478,11 @@ func runProgram(c *kit.Ctx, id string) {
 		}
 
 		// (5) state after execution == reference (live getters, before finalisation)
-		if diffs := compareLive(st, res.Pre, univ, true); len(diffs) > 0 {
-			cl := classify(diffs, pp, burntAt)
-			c.Violation(cl, fmt.Sprintf("tx%d after execution: real state differs from the DSL reference: %s", ti, firstN(diffs, 4)), pp.witness(ti, "after execution (before finalisation)", diffs, between))
+		if quiet {
+			// nothing
+		} else if diffs := compareLive(st, res.Pre, univ, true); len(diffs) > 0 {
+			cl, note := attrib(classify(diffs, pp), false, nil)
+			c.Violation(cl, fmt.Sprintf("tx%d after execution: real state differs from the DSL reference: %s%s", ti, firstN(diffs, 4), note), pp.witness(ti, "after execution (before finalisation)", diffs, between))
 			bad = true
 			break
 		}
@@ -421,7 +493,8 @@ func runProgram(c *kit.Ctx, id string) {
 					cl = "failed-frame-effect-survived:log"
 				}
 			}
-			c.Violation(cl, fmt.Sprintf("tx%d: logs differ from the reference: %s", ti, firstN(diffs, 4)), pp.witness(ti, "after execution", diffs, between))
+			cl, note := attrib(cl, false, nil)
+			c.Violation(cl, fmt.Sprintf("tx%d: logs differ from the reference: %s%s", ti, firstN(diffs, 4), note), pp.witness(ti, "after execution", diffs, between))
 			bad = true
 			break
 		}
@@ -429,10 +502,7 @@ func runProgram(c *kit.Ctx, id string) {
 		c.Count("logs_surviving", len(res.Pre.Logs))
 
 		// finalisation as between the transactions of a block, in one of four flavours
-		mode := r.Intn(4)
-		if ti == len(p.Txs)-1 && r.Intn(2) == 0 {
-			mode = 3
-		}
+		mode := pp.modes[ti]
 		switch mode {
 		case 0:
 			st.Finalise(true)
@@ -463,9 +533,12 @@ func runProgram(c *kit.Ctx, id string) {
 		c.Count(fmt.Sprintf("finalise_mode_%d", mode), 1)
 
 		// (6) state after finalisation == reference: live getters and our own enumeration of the tries
-		if diffs := compareLive(st, res.Post, univ, false); len(diffs) > 0 {
-			cl := classify(diffs, pp, burntAt)
-			c.Violation(cl, fmt.Sprintf("tx%d after finalisation: real state differs from the DSL reference: %s", ti, firstN(diffs, 4)), pp.witness(ti, "after finalisation", diffs, between))
+		if quiet {
+			// nothing
+		} else if diffs := compareLive(st, res.Post, univ, false); len(diffs) > 0 {
+			fl, _ := trieDump(st)
+			cl, note := attrib(classify(diffs, pp), true, fl)
+			c.Violation(cl, fmt.Sprintf("tx%d after finalisation: real state differs from the DSL reference: %s%s", ti, firstN(diffs, 4), note), pp.witness(ti, "after finalisation", diffs, between))
 			bad = true
 			break
 		}
@@ -476,8 +549,8 @@ func runProgram(c *kit.Ctx, id string) {
 			break
 		}
 		if diffs := compareTrie(trieAfter, res.Post); len(diffs) > 0 {
-			cl := classify(diffs, pp, burntAt)
-			c.Violation(cl, fmt.Sprintf("tx%d: flushed tries differ from the DSL reference: %s", ti, firstN(diffs, 4)), pp.witness(ti, "flushed tries after finalisation", diffs, between))
+			cl, note := attrib(classify(diffs, pp), true, trieAfter)
+			c.Violation(cl, fmt.Sprintf("tx%d: flushed tries differ from the DSL reference: %s%s", ti, firstN(diffs, 4), note), pp.witness(ti, "flushed tries after finalisation", diffs, between))
 			bad = true
 			break
 		}
@@ -487,24 +560,14 @@ func runProgram(c *kit.Ctx, id string) {
 		want = new(big.Int).Sub(tb, tr.selfBurn)
 		want.Sub(want, dying)
 		c.Evals(1)
-		if ta.Cmp(want) != 0 {
-			c.Violation("total-balance-changed", fmt.Sprintf("tx%d: sum of all balances in the account trie before %v, after %v; burnt by SELFDESTRUCT-to-self %v, held by self-destructed accounts at finalisation %v", ti, tb, ta, tr.selfBurn, dying), pp.witness(ti, "flushed tries after finalisation", nil, between))
+		if !quiet && ta.Cmp(want) != 0 {
+			cl, note := attrib("total-balance-changed", true, trieAfter)
+			c.Violation(cl, fmt.Sprintf("tx%d: sum of all balances in the account trie before %v, after %v; burnt by SELFDESTRUCT-to-self %v, held by self-destructed accounts at finalisation %v%s", ti, tb, ta, tr.selfBurn, dying, note), pp.witness(ti, "flushed tries after finalisation", nil, between))
 			bad = true
 			break
 		}
 		if res.Burnt > 0 {
 			c.Count("transactions_burning_value", 1)
-		}
-		if mode == 3 {
-			burntAt = map[model.C16Addr]uint64{} // a re-opened StateDB has forgotten the removed objects
-		} else {
-			for a, ac := range res.Pre.Accts {
-				if ac.Suicided && ac.Bal > 0 {
-					burntAt[a] = ac.Bal
-				} else {
-					delete(burntAt, a)
-				}
-			}
 		}
 		_ = prevPost
 		prevPost = res.Post
@@ -552,25 +615,57 @@ func sumBalances(st *state.StateDB, addrs []common.Address) *big.Int {
 
 // ---- comparison with the reference -------------------------------------------------------------------
 
-// resurrected attributes a surplus of value to an account that was removed, holding value, at the end
-// of an earlier transaction (state not re-opened since): either the account now holds exactly that much
-// more than the reference says, or the whole surplus equals that amount.
-func resurrected(st *state.StateDB, m *model.C16State, burntAt map[model.C16Addr]uint64, surplus *big.Int) (model.C16Addr, uint64) {
-	for a, amt := range burntAt {
-		want := uint64(0)
-		if ac := m.Accts[a]; ac != nil {
-			want = ac.Bal
+// staticDiffIsResurrection: every difference concerns an address with remembered burnt value g and is
+// one of balance 0 -> g, exists, codehash.
+func staticDiffIsResurrection(diffs []string, ghost map[model.C16Addr]uint64) bool {
+	if len(diffs) == 0 {
+		return false
+	}
+	for _, d := range diffs {
+		i := strings.Index(d, "/")
+		if i != 40 {
+			return false
 		}
-		if g := st.GetBalance(ca(a)); amt > 0 && g.IsUint64() && g.Uint64() == want+amt {
-			return a, amt
+		b, err := hex.DecodeString(d[:40])
+		if err != nil {
+			return false
+		}
+		var a model.C16Addr
+		copy(a[:], b)
+		g := ghost[a]
+		rest := d[41:]
+		switch {
+		case g > 0 && rest == fmt.Sprintf("balance: 0 -> %d", g):
+		case g > 0 && strings.HasPrefix(rest, "exists:"), g > 0 && strings.HasPrefix(rest, "codehash:"):
+		default:
+			return false
 		}
 	}
-	for a, amt := range burntAt {
-		if amt > 0 && surplus != nil && surplus.IsUint64() && surplus.Uint64() == amt {
-			return a, amt
+	return true
+}
+
+// statesEqual: two reference states predict the same observables.
+func statesEqual(a, b *model.C16State) bool {
+	if len(a.Accts) != len(b.Accts) || len(a.Logs) != len(b.Logs) {
+		return false
+	}
+	for ad, x := range a.Accts {
+		y := b.Accts[ad]
+		if y == nil || x.Nonce != y.Nonce || x.Bal != y.Bal || !bytes.Equal(x.Code, y.Code) || x.Suicided != y.Suicided || len(x.Storage) != len(y.Storage) {
+			return false
+		}
+		for k, v := range x.Storage {
+			if y.Storage[k] != v {
+				return false
+			}
 		}
 	}
-	return model.C16Addr{}, 0
+	for i := range a.Logs {
+		if a.Logs[i].Addr != b.Logs[i].Addr || !bytes.Equal(a.Logs[i].Data, b.Logs[i].Data) || len(a.Logs[i].Topics) != len(b.Logs[i].Topics) {
+			return false
+		}
+	}
+	return true
 }
 
 func wordHex(w model.C16Word) string {
@@ -596,6 +691,21 @@ func compareLive(st *state.StateDB, m *model.C16State, addrs []common.Address, p
 		if ac != nil {
 			bal, nonce, code, suicided = ac.Bal, ac.Nonce, ac.Code, ac.Suicided
 		}
+		// existence: an account the reference holds as non-empty must exist; one the reference does not
+		// hold must not exist. (An EMPTY account is equivalent to an absent one under EIP-161, so the
+		// reference's empty accounts are not compared while they may still linger before finalisation.)
+		ex := st.Exist(a)
+		setDiff := true
+		switch {
+		case ac != nil && !ac.Empty() && !ex:
+			d = append(d, fmt.Sprintf("account(%s): absent, reference has it", name))
+		case ac == nil && ex && !(pre && st.Empty(a)):
+			d = append(d, fmt.Sprintf("account(%s): exists (empty=%v), reference has none", name, st.Empty(a)))
+		case !pre && ac == nil && ex:
+			d = append(d, fmt.Sprintf("account(%s): exists after finalisation, reference has none", name))
+		default:
+			setDiff = false
+		}
 		if g := st.GetBalance(a); !g.IsUint64() || g.Uint64() != bal {
 			d = append(d, fmt.Sprintf("balance(%s): real %v, reference %d", name, g, bal))
 		}
@@ -609,8 +719,9 @@ func compareLive(st *state.StateDB, m *model.C16State, addrs []common.Address, p
 		if ac != nil {
 			wantHash = common.BytesToHash(model.Keccak256(code))
 		}
-		if g := st.GetCodeHash(a); g != wantHash && (ac != nil || st.Exist(a)) {
-			// (an absent account has hash zero; compared below through exist)
+		skipHash := setDiff || (!ex && (ac == nil || ac.Empty())) || (ac == nil && st.Empty(a))
+		if g := st.GetCodeHash(a); g != wantHash && !skipHash {
+			// (an absent account has hash zero, an empty one keccak(""))
 			d = append(d, fmt.Sprintf("codehash(%s): real %x, reference %x", name, g, wantHash))
 		}
 		if g := st.GetCodeSize(a); g != len(code) {
@@ -622,18 +733,6 @@ func compareLive(st *state.StateDB, m *model.C16State, addrs []common.Address, p
 			}
 		} else if st.HasSuicided(a) {
 			d = append(d, fmt.Sprintf("selfdestructed(%s): still flagged after finalisation", name))
-		}
-		// existence: an account the reference holds as non-empty must exist; one the reference does not
-		// hold must not exist. (An EMPTY account is equivalent to an absent one under EIP-161, so the
-		// reference's empty accounts are not compared while they may still linger before finalisation.)
-		ex := st.Exist(a)
-		switch {
-		case ac != nil && !ac.Empty() && !ex:
-			d = append(d, fmt.Sprintf("account(%s): absent, reference has it", name))
-		case ac == nil && ex && !(pre && st.Empty(a)):
-			d = append(d, fmt.Sprintf("account(%s): exists (empty=%v), reference has none", name, st.Empty(a)))
-		case !pre && ac == nil && ex:
-			d = append(d, fmt.Sprintf("account(%s): exists after finalisation, reference has none", name))
 		}
 		for _, s := range allSlots {
 			var w model.C16Word
@@ -733,7 +832,7 @@ func (pp *prepared) doomedTags() map[uint64]bool {
 }
 
 // classify picks the violation class from a list of differences.
-func classify(diffs []string, pp *prepared, burntAt map[model.C16Addr]uint64) string {
+func classify(diffs []string, pp *prepared) string {
 	doomed := pp.doomedTags()
 	kind := ""
 	for _, d := range diffs {
